@@ -99,6 +99,31 @@ def gen(tier, rng):
                                             alpha=kw["alpha"], box=kw["box"], Q=kw["Q"], cpu=kw["cpu"], rz=rzid,
                                             src_c={"g": "rand", "seed": seed, "flo": -1.0, "fhi": 2.0}, log=("digest",), chk=chk, g=g,
                                             sent=seed % 9973))
+    # stale scratch content: a first call fills a scratch buffer (premultiplied image / super-sampling intermediate / first
+    # pass) with bright data, the next call uses the SAME buffer size but needs only part of it (deep crop, strong
+    # down-scale, other alpha setting): nothing of the first call may show
+    for pt in ("U8x4", "U8x2", "U16x4", "U16x2", "F32x4", "F32x2", "U8", "U16x3"):
+        for (sw, sh, box, dw, dh) in ((28, 24, (8, 6, 12, 12), 3, 3), (40, 9, (14, 3, 12, 3), 4, 3), (12, 30, (4, 10, 4, 9), 2, 3)):
+            for (alg, flt, m) in (("conv", "Lanczos3", 1), ("conv", "Bilinear", 1), ("ss", "CatmullRom", 2)):
+                if tier == "quick" and rz.pick(g, 131, [0, 1, 1]):
+                    g += 1
+                    continue
+                slot += 1
+                cases.append(rz.ctl_case(slot, "new"))
+                cpu = rz.pick(g, 132, rz.CPUS)
+                hist = [dict(box=None, dw=sw // 2, dh=sh // 2, alpha=True, bright=True),       # fills the buffers
+                        dict(box=box, dw=dw, dh=dh, alpha=True, bright=False),                 # deep crop, strong down-scale
+                        dict(box=box, dw=dw, dh=dh, alpha=False, bright=False),
+                        dict(box=(box[0] + 1, box[1], box[2], box[3]), dw=dw, dh=dh, alpha=True, bright=False)]
+                for hcall in hist:
+                    g += 1
+                    seed = rng.randint(1, 10 ** 9)
+                    cont = {"g": "rand", "seed": seed, "flo": 0.9, "fhi": 1.0, "lo": rz.PT[pt]["max"] - 3, "hi": rz.PT[pt]["max"]} if hcall["bright"] and rz.PT[pt]["comp"] != "i32" \
+                        else {"g": "rand", "seed": seed, "flo": 0.0, "fhi": 1.0}
+                    for rzid in (-1, slot):
+                        chk = ["pipeline", "no_panic", "outside", "srcsame"] + (["memo_exact"] if rzid >= 0 else [])
+                        cases.append(rz.resize_case(pt, sw, sh, hcall["dw"], hcall["dh"], alg=alg, flt=flt, m=m, alpha=hcall["alpha"], box=hcall["box"], Q=1,
+                                                    cpu=cpu, rz=rzid, src_c=cont, log=("digest",), chk=chk, g=g, sent=seed % 9973))
     return cases
 
 
